@@ -313,7 +313,16 @@ func cancelsAll(l *core.Ledger, r *rt, rm *routerModel, fn *ssa.Function) (bool,
 		if !found {
 			return false, "cannot find the range body"
 		}
-		if _, skip := sx.Reach(sx.Node{B: bodyEdge.To, I: -1}, func(n sx.Node) bool { return n.Instr() == ssa.Instruction(next) || sx.IsExit(n) }, sx.Query{BlockNode: sx.IsInstr(d.send)}); skip {
+		// every way through the body delivers (a router with a done channel through the bounded form, the others plainly)
+		isDelivery := func(n sx.Node) bool {
+			for _, d2 := range rm.deliveries {
+				if d2.fn == fn && d2.viaLoop && n.Instr() == d2.send {
+					return true
+				}
+			}
+			return false
+		}
+		if _, skip := sx.Reach(sx.Node{B: bodyEdge.To, I: -1}, func(n sx.Node) bool { return n.Instr() == ssa.Instruction(next) || sx.IsExit(n) }, sx.Query{BlockNode: isDelivery}); skip {
 			return false, "some router entries are skipped (filtered range or early exit)"
 		}
 		// and the loop is reached on every path from entry to exit
